@@ -90,6 +90,15 @@ def _injected(p, mi, cont, w):
         if got != want[3]:
             WHY["why"] = "sharing design exported something a fresh process would not"
             return False
+        if mi != 1:
+            # ... and a parent made by the built-in Wrapper around a shared sub-module (Mid, with its bundle port)
+            from hdl21.generators import Wrapper
+            try:
+                gw = _bytes(Wrapper(mods[1]))
+            except Exception as e:
+                return _fail("Wrapper of a shared sub-module of the failed design raised: " + _norm(e)[-200:])
+            if gw != _bytes(Wrapper(_mods(w)[1])):
+                return _fail("Wrapper of a shared sub-module differs from a fresh process")
         return True
     # cont == 3: the user code is removed ('repair'), same design again: fresh result or an exception
     try:
